@@ -28,7 +28,8 @@ def run(run):
     skeleton.apply(run, 'C14')
     from pyvc import components, runner
     runner.load_contracts()
-    components.ast_functions(run, ['PEPit/wrappers/cvxpy_wrapper.py::CvxpyWrapper.prepare_heuristic', 'PEPit/wrappers/cvxpy_wrapper.py::CvxpyWrapper.heuristic'],
+    components.ast_functions(run, ['PEPit/wrappers/cvxpy_wrapper.py::CvxpyWrapper.prepare_heuristic', 'PEPit/wrappers/cvxpy_wrapper.py::CvxpyWrapper.heuristic',
+                                   'PEPit/pep.py::PEP.solve'],
                              run.tier)
     run.trust('pyvc AST engine + z3 5.1 / cvc5 1.0.3', 'cvxpy modelled by denotation (pyvc/cvxmodel.py, assumed)')
     hc.solve_scenarios(run, 'C14', tasks(run), 'rt-solve-dimension-reduction',
